@@ -12,6 +12,9 @@ def classify(h, maxl):
             cbs[r["h"]] = cbs.get(r["h"], 0) + 1
     if any(v > 1 for v in cbs.values()):
         return "ExitCallbackPopDropsNewEntry"
+    # a wait that follows a handled interruption is aborted by that interruption's late wake-up
+    if 0 < maxl <= len(h) and h[maxl - 1].get("e") == "ret" and h[maxl - 1].get("res") == -3:
+        return "StaleInterruptAbortsLaterWait"
     return None
 
 
